@@ -18,7 +18,10 @@ import (
 // maxPayloadLen is the size of the pooled payload buffers.
 const maxPayloadLen = 1460
 
-var errLeakyBucketPacerPoolCastFailed = errors.New("failed to access leaky bucket pacer pool, cast failed")
+var (
+	errLeakyBucketPacerPoolCastFailed = errors.New("failed to access leaky bucket pacer pool, cast failed")
+	errLeakyBucketPacerClosed         = errors.New("leaky bucket pacer is closed")
+)
 
 type item struct {
 	header     *rtp.Header
@@ -110,6 +113,12 @@ func (p *LeakyBucketPacer) getTargetBitrate() int {
 func (p *LeakyBucketPacer) Write(header *rtp.Header, payload []byte, attributes interceptor.Attributes) (int, error) {
 	if len(payload) > maxPayloadLen {
 		return 0, io.ErrShortBuffer
+	}
+	select {
+	case <-p.done:
+		// nothing drains the queue once the pacer is closed: do not retain the packet
+		return 0, errLeakyBucketPacerClosed
+	default:
 	}
 	buf, ok := p.pool.Get().(*[]byte)
 	if !ok {
